@@ -370,7 +370,7 @@ def run_case(case):
                         'at': len(trace)}
         # try to add after the join ended
         late = None
-        if oracle['join_end'] is not None and oracle['join_end']['entered'] and oracle['join_end']['joined']:
+        if oracle['join_end'] is not None and oracle['join_end']['entered'] and (oracle['join_end']['joined'] or not oracle['join_end']['undone']):
             late = 'refused'
             for k, dm in enumerate((False, True)):
                 try:
